@@ -44,7 +44,7 @@ def main():
     for s_, d_ in zip(spec['sources'], p['delims']):
         s_['_delimiter'] = d_      # the delimiter setting as written in settings.yaml
     mode = spec.get('rule_mode') or 'first_match'
-    kind = spec['rules']['kind']
+    kind = 'none' if spec['rules'].get('configured_missing') else spec['rules']['kind']
     path = {'rules': os.path.join(root, 'config', 'merchants.rules'),
             'csv': os.path.join(root, 'config', 'merchant_categories.csv'), 'none': None}[kind]
     rules = get_all_rules(path, match_mode=mode) if path else get_all_rules(match_mode=mode)
@@ -76,7 +76,7 @@ def main():
     out = {'per_source': per_source, 'n': len(all_txns)}
     if all_txns:
         stats = analyze_transactions(all_txns)
-        if spec.get('views') is not None:
+        if spec.get('views') is not None and not spec.get('views_file'):
             from tally.section_engine import load_sections
             try:
                 vc = load_sections(os.path.join(root, 'config', 'views.rules'))
